@@ -201,9 +201,9 @@ struct flat_set {
 
     constexpr auto erase(key_type const& key) -> size_type
     {
-        auto const it = etl::remove(begin(), end(), key);
-        auto const r  = static_cast<size_type>(etl::distance(it, end()));
-        erase(it, end());
+        auto const range = equal_range(key);
+        auto const r     = static_cast<size_type>(etl::distance(range.first, range.second));
+        erase(range.first, range.second);
         return r;
     }
 
